@@ -6,6 +6,14 @@ unsigned nondet_unsigned();
 
 int main() {
   std::string in;
+#ifdef VERIF_CONCRETE
+  // one CONCRETE long input (beyond the symbolic length bound): VERIF_N is its length
+  static const char lit[] = VERIF_CONCRETE;
+  unsigned n = VERIF_N;
+  in.len = n;
+  for (unsigned i = 0; i < VERIF_N; i++) in.buf[i] = lit[i];
+  in.buf[n] = 0;
+#else
   unsigned n = nondet_unsigned();
   __CPROVER_assume(n <= VERIF_N);
   in.len = n;
@@ -18,6 +26,7 @@ int main() {
     in.buf[i] = (i < n) ? c : 0;
   }
   in.buf[n] = 0;
+#endif
   // reference: lower-case, delete every '-' and every ' '
   char ref[VERIF_N + 1];
   unsigned m = 0;
